@@ -79,7 +79,7 @@ struct State {
   std::vector<long> matidx;                // chain + CONTAINER: MatIdx of the column of the cell at each position
   std::map<long, long> libid;              // boundary-type, default mode: identifier the library gave the cell at insertion
   std::map<long, long> cur;                // boundary-type matrices: stable cell id -> identifier currently naming its row/column
-  long inserted = 0; bool custom = false;   // custom: ids differ from the insertion count, the id-taking overload is used
+  long inserted = 0; bool custom = false; bool removed = false;   // custom: ids differ from the insertion count, the id-taking overload is used
 };
 static long md(long a, long p) { long r = a % p; return r < 0 ? r + p : r; }
 static void axpy(Vec& a, long c, const Vec& b, long p) { for (auto& kv : b) { long v = md(a.count(kv.first) ? a[kv.first] + c * kv.second : c * kv.second, p); if (v) a[kv.first] = v; else a.erase(kv.first); } }
@@ -91,7 +91,12 @@ static unsigned colIndex(const State& s, long pos) {
   if (kIdPos || !kChain) return (unsigned)pos;
   return (unsigned)s.matidx[pos]; }
 
-template <class Col> static Vec content(const Col& c, long p) { Vec v; for (const auto& e : c) { long x = 1; if constexpr (!O::is_z2) x = (long)e.get_element() % p; if (x) { long r = (long)e.get_row_index(); v[r] = md((v.count(r) ? v[r] : 0) + x, p); if (!v[r]) v.erase(r); } } return v; }
+// a VECTOR column erases lazily ("lazy removal method" of the documentation): its iterators still show erased entries, its
+// content is read through get_content(); every other column type is read through its iterators
+static const bool kLazyColumn = std::is_same<typename MM::Column, typename MM::Matrix_vector_column>::value;
+template <class Col> static Vec content(const Col& c, long p) { Vec v;
+  if constexpr (kLazyColumn) { auto dense = c.get_content(256); for (long r = 0; r < (long)dense.size(); ++r) { long x = O::is_z2 ? (dense[r] ? 1 : 0) : (long)dense[r] % p; if (x) v[r] = x; } return v; }
+  else for (const auto& e : c) { long x = 1; if constexpr (!O::is_z2) x = (long)e.get_element() % p; if (x) { long r = (long)e.get_row_index(); v[r] = md((v.count(r) ? v[r] : 0) + x, p); if (!v[r]) v.erase(r); } } return v; }
 
 static std::string bars(State& s) {
   std::vector<std::tuple<int, long, long>> b;
@@ -179,6 +184,7 @@ static int run() {
         // boundary-type matrices in default mode: the library numbers the cells itself (identifier = position at insertion);
         // chain matrices and the custom mode (op `ids custom`) use the identifier-taking overload
         if (!kChain && !s.custom) { s.cur[id] = (long)s.order.size(); s.libid[id] = (long)s.order.size(); s.m->insert_boundary(bvec, d); }
+        else if (kChain && !s.custom && !s.removed && id == s.inserted && (id % 2 == 0)) s.m->insert_boundary(bvec, d);   // chain matrix numbering the cell itself (every other cell, while nothing was removed)
         else s.m->insert_boundary((unsigned)id, bvec, d);
         s.order.push_back(id); if constexpr (kChain && !kIdId && !kIdPos) s.matidx.push_back((long)s.m->get_column_with_pivot((unsigned)id)); else s.matidx.push_back(0); ++s.inserted; return "ins"; }
       if (o == "ids") { s.custom = (t[1] == "custom"); return "ids"; }
@@ -199,7 +205,7 @@ static int run() {
           if constexpr (kHasU) { q << " U:"; for (auto& kv : content(s.m->get_column(colIndex(s, j), false), s.p)) q << " " << kv.first; } } return q.str(); }
       if (o == "ncols") return "ncols " + std::to_string(s.m->get_number_of_columns());
       if constexpr (O::has_removable_columns && (O::is_of_boundary_type || O::has_map_column_container || !O::has_vine_update)) {
-        if (o == "rmlast") { if (s.order.empty()) return "rmlast"; s.m->remove_last(); long id = s.order.back(); s.order.pop_back(); s.matidx.pop_back(); s.bd.erase(id); s.dim.erase(id); s.cur.erase(id); return "rmlast"; }
+        if (o == "rmlast") { if (s.order.empty()) return "rmlast"; s.removed = true; s.m->remove_last(); long id = s.order.back(); s.order.pop_back(); s.matidx.pop_back(); s.bd.erase(id); s.dim.erase(id); s.cur.erase(id); return "rmlast"; }
       }
       if constexpr (O::has_vine_update) {
         if (o == "swap") { long i = L(t[1]); std::vector<std::tuple<int, long, long>> before, after;
@@ -220,7 +226,7 @@ static int run() {
           return truthful ? "swap ok" : ("swap untruthful ret=" + ret + (kept ? " kept" : "") + (unchanged ? " unchanged" : "")); }
       }
       if constexpr (O::has_vine_update && O::has_removable_columns && (O::is_of_boundary_type || O::has_map_column_container)) {
-        if (o == "rmmax") { long i = L(t[1]); long id = s.order[i];
+        if (o == "rmmax") { s.removed = true; long i = L(t[1]); long id = s.order[i];
           if constexpr (O::is_of_boundary_type) {
             s.m->remove_maximal_cell(colIndex(s, i));
             // the cell travels to the end: every later cell takes the identifier of its predecessor
